@@ -300,6 +300,25 @@ def strip(ex, p, s, chars=None, left=True, right=True):
     rclean = (not right) or _edge_clean([c if not isinstance(c, str) else c[::-1] for c in reversed(chunks)], cs)
     if lclean and rclean:
         return VStr(chunks, s.kind)
+    if chars is not None and chars != '':
+        # explicit character set on a symbolic edge: the result is the text without its longest prefix / suffix made of those
+        # characters (sequence theory + a regular-expression constraint on the removed part)
+        from .engine import fresh_name
+        v = VStr(chunks, s.kind).z()
+        cls = z3.Union(*[z3.Re(z3.StringVal(c)) for c in sorted(cs)]) if len(cs) > 1 else z3.Re(z3.StringVal(next(iter(cs))))
+        a0, b0 = z3.IntVal(0), z3.Length(v)
+        if left:
+            a0 = z3.Int(fresh_name('lstrip_n'))
+            p.assume(z3.And(a0 >= 0, a0 <= z3.Length(v), z3.InRe(z3.SubString(v, 0, a0), z3.Star(cls))))
+        if right:
+            b0 = z3.Int(fresh_name('rstrip_end'))
+            p.assume(z3.And(b0 >= a0, b0 <= z3.Length(v), z3.InRe(z3.SubString(v, b0, z3.Length(v) - b0), z3.Star(cls))))
+        r = z3.SubString(v, a0, b0 - a0)
+        if left:
+            p.assume(z3.Or(z3.Length(r) == 0, z3.Not(z3.InRe(z3.SubString(r, 0, 1), cls))))
+        if right:
+            p.assume(z3.Or(z3.Length(r) == 0, z3.Not(z3.InRe(z3.SubString(r, z3.Length(r) - 1, 1), cls))))
+        return VStr([Atom(r)], s.kind)
     if chars is not None or not (left and right):
         raise EngineError('lstrip/rstrip/strip(chars) on a symbolic edge')
     v = VStr(chunks, s.kind)
